@@ -43,6 +43,41 @@ def mutate(rng, text):
             j = rng.randrange(len(toks)); toks = toks[:min(i, j)] + toks[max(i, j):]
     return ''.join(toks)
 
+def scale_programs(rng, quick):
+    """valid programs that are large in ONE dimension each (names in one table, nesting depth, list length, token length):
+    'for every input' includes the ones that make a table grow, rehash, fill with tombstones, or a recursion go deep"""
+    k = 1 if quick else 4
+    P = []
+    n = rng.choice([700, 1300]) * k
+    P.append(('define-undef-churn', ''.join('#define X_%d %d\n#undef X_%d\n' % (i, i, i) for i in range(n)) + 'int keep_%d;\nint main(void) { return keep_%d; }\n' % (n, n)))
+    P.append(('define-churn-same-names', ''.join('#define Y_%d %d\n#undef Y_%d\n' % (i % 37, i, i % 37) for i in range(n)) + '#define Y_1 5\nint main(void) { return Y_1; }\n'))
+    n = rng.choice([1500, 2500]) * k
+    P.append(('many-macros-live', ''.join('#define M_%d (M_%d + 1)\n' % (i, i - 1) if i % 50 else '#define M_%d 1\n' % i for i in range(n)) + 'int main(void) { return M_%d; }\n' % (n - 1)))
+    P.append(('many-globals', ''.join('int g_%d = %d;\n' % (i, i) for i in range(n)) + 'int main(void) { return g_0 + g_%d; }\n' % (n - 1)))
+    P.append(('many-locals', 'int main(void) {\n' + ''.join('  int l_%d = %d;\n' % (i, i) for i in range(n)) + '  return l_0 + l_%d; }\n' % (n - 1)))
+    P.append(('many-tags-typedefs-enums', ''.join('struct S_%d { int m_%d; }; typedef struct S_%d T_%d; enum { E_%d = %d };\n' % (i, i, i, i, i, i) for i in range(n // 2)) + 'int main(void) { T_7 t = { E_7 }; return t.m_7; }\n'))
+    P.append(('many-functions-and-calls', ''.join('static int f_%d(int x) { return x + %d; }\n' % (i, i) for i in range(n // 2)) + 'int main(void) { int s = 0;\n' + ''.join('  s += f_%d(s);\n' % i for i in range(n // 2)) + '  return s; }\n'))
+    d = rng.choice([150, 300]) * k
+    P.append(('nested-parentheses', 'int main(void) { return ' + '(' * d + '1' + ')' * d + '; }\n'))
+    P.append(('nested-blocks', 'int main(void) { int x = 0; ' + '{ x++; ' * d + '}' * d + ' return x; }\n'))
+    P.append(('nested-macro-calls', '#define F(x) ((x) + 1)\nint main(void) { return ' + 'F(' * (d // 3) + '0' + ')' * (d // 3) + '; }\n'))
+    P.append(('nested-unary-and-casts', 'int main(void) { int x = 1; return ' + '-(long)!~' * (d // 2) + 'x; }\n'))
+    P.append(('long-left-chain', 'int main(void) { int x = 1; return x' + ' + x' * (n * 2) + '; }\n'))
+    P.append(('nested-if-else-chain', 'int f(int x) {\n' + ''.join('  if (x == %d) return %d; else\n' % (i, i) for i in range(d * 3)) + '  return -1; }\nint main(void) { return f(3); }\n'))
+    m = rng.choice([20000, 50000]) * k
+    P.append(('long-array-initializer', 'int a[] = {' + ','.join(str(i % 97) for i in range(m)) + '};\nint main(void) { return a[%d]; }\n' % (m - 1)))
+    P.append(('long-string-literal', 'char s[] = "' + 'ab\\n' * (m // 2) + '";\nint main(void) { return s[5]; }\n'))
+    P.append(('many-string-literals', 'char *t[] = {' + ','.join('"s%d"' % i for i in range(n * 2)) + '};\nint main(void) { return t[1][0]; }\n'))
+    P.append(('long-identifier', 'int %s = 3;\nint main(void) { return %s; }\n' % ('v' * (m // 5), 'v' * (m // 5))))
+    P.append(('many-cases', 'int f(int x) { switch (x) {\n' + ''.join('  case %d: return %d;\n' % (i * 3, i) for i in range(n)) + '  default: return -1; } }\nint main(void) { return f(9); }\n'))
+    P.append(('many-labels', 'int main(void) { int x = 0;\n' + ''.join('  goto L_%d; L_%d: x++;\n' % (i, i) for i in range(n // 2)) + '  return x; }\n'))
+    P.append(('many-members', 'struct B { ' + ' '.join('int m_%d;' % i for i in range(n)) + ' };\nint main(void) { struct B b = { .m_%d = 1 }; return b.m_%d + (int)sizeof(b); }\n' % (n - 1, n - 1)))
+    P.append(('many-params-and-args', 'int f(' + ', '.join('int p_%d' % i for i in range(200)) + ') { return p_0 + p_199; }\nint main(void) { return f(' + ', '.join(str(i) for i in range(200)) + '); }\n'))
+    P.append(('many-blank-lines-and-comments', '\n' * m + '/* c */ ' * (m // 10) + '\nint main(void) { return 0; } // end\n'))
+    P.append(('long-line-splices', 'int main(void) { return 0 ' + '\\\n + 1 ' * (n * 2) + '; }\n'))
+    P.append(('many-conditional-groups', ''.join('#if %d > 3\nint c_%d;\n#elif defined(NOPE_%d)\nint d_%d;\n#else\nint e_%d;\n#endif\n' % (i % 7, i, i, i, i) for i in range(n)) + 'int main(void) { return 0; }\n'))
+    return P
+
 def main():
     run = Run(PID, THEOREMS)
     rng = run.rng
@@ -117,6 +152,9 @@ def main():
             if ctx.startswith('#if'): e2 = e.replace('L', '').replace('(unsigned char)300', '300').replace('(char)0', '0')
             else: e2 = e
             f = os.path.join(wd, 'trap%d.c' % tk); tk += 1; t = ctx % e2; open(f, 'w').write(t); jobs.append((f, t, 'trap'))
+    # valid programs that are large in one dimension (table growth, tombstones, recursion depth, list and token length): must be accepted
+    for name, t in scale_programs(rng, run.quick()):
+        f = os.path.join(wd, 'scale_%s.c' % name); open(f, 'w').write(t); jobs.append((f, t, 'scale:' + name))
     # raw byte strings for the lexer model
     for k in range(60 if run.quick() else 600):
         n = rng.randint(1, 60)
@@ -139,10 +177,14 @@ def main():
         count('%s-%s' % (kind.split(':')[0], 'accepted' if rc == 0 else 'diagnosed' if rc == 1 else 'other'))
         if verdict:
             run.violation(dict(kind='bad-answer', what=verdict, input=text[:4000], exit=rc, stderr=err[:400],
-                               how='chibicc -cc1 -I<test> -I<include> ... -cc1-input <file> -cc1-output <file>.s <file> (the front end run directly), then `as` on the output'),
+                               input_bytes=len(text), family=kind, how='chibicc -cc1 -I<test> -I<include> ... -cc1-input <file> -cc1-output <file>.s <file> (the front end run directly), then `as` on the output'),
                           dict(area='robustness', construct=re.sub(r'[^a-z ]', '', verdict.lower())[:30].strip()))
         if lex and lex[0] != lex[1]:
             run.corr_broken.append('lexer outcome class of %s: model %s, chibicc %s' % (os.path.basename(f), lex[0], lex[1])); write_replay(PID, 'lex_' + os.path.basename(f), text)
+        if kind.startswith('scale') and rc != 0 and not verdict:
+            r2, o2, e2 = sh(['gcc', '-fsyntax-only', '-w', '-std=gnu11', f], timeout=120)
+            if r2 != 0: run.corr_broken.append('scale program %s is rejected by gcc too: %s' % (kind, e2[-200:]))
+            else: run.violation(dict(kind='valid-program-rejected', family=kind, input_head=text[:300], input_bytes=len(text), stderr=err[:400], how='a valid program that is large in one dimension (%s); gcc accepts it' % kind[6:]), dict(area='acceptance', construct=kind))
         if kind.startswith('benign') and rc != 0:
             run.violation(dict(kind='meaning-preserving-edit-rejected', input=text, stderr=err[:400]), dict(area='acceptance', construct='benign-edit'))
 
